@@ -34,6 +34,37 @@ namespace igris
         time_t _start = 0;
         difftime_t _interval = 0;
 
+        // Time arithmetic of an integral tick counter is done in the unsigned
+        // type of the same width: a signed counter that runs past its maximum
+        // (int32_t ticks of 1 ms do after 24.8 days) wraps around instead of
+        // overflowing, which is undefined behaviour for signed integers.
+        static constexpr bool wrapping = std::is_integral<time_t>::value &&
+                                         std::is_integral<difftime_t>::value;
+
+        static time_t add(time_t a, difftime_t b)
+        {
+            if constexpr (wrapping)
+            {
+                using u = typename std::make_unsigned<time_t>::type;
+                return static_cast<time_t>(
+                    static_cast<u>(static_cast<u>(a) + static_cast<u>(b)));
+            }
+            else
+                return a + b;
+        }
+
+        static difftime_t sub(time_t a, time_t b)
+        {
+            if constexpr (wrapping)
+            {
+                using u = typename std::make_unsigned<time_t>::type;
+                return static_cast<difftime_t>(
+                    static_cast<u>(static_cast<u>(a) - static_cast<u>(b)));
+            }
+            else
+                return a - b;
+        }
+
     public:
         bool is_planned()
         {
@@ -48,11 +79,11 @@ namespace igris
 
         time_t finish() const
         {
-            return _start + _interval;
+            return add(_start, _interval);
         }
         bool check(time_t curtime)
         {
-            return curtime - _start >= _interval;
+            return sub(curtime, _start) >= _interval;
         }
         void set_start(time_t t)
         {
@@ -64,7 +95,7 @@ namespace igris
         }
         void shift()
         {
-            _start += _interval;
+            _start = add(_start, _interval);
         }
     };
 
@@ -95,15 +126,19 @@ namespace igris
                      &timer_head_basic<TimeSpec>::lnk>
             timer_list = {};
 
-        // deadline a comes before deadline b. A wrapping (unsigned) tick
+        // deadline a comes before deadline b. A wrapping (integral) tick
         // counter is compared like check() does it: by the difference,
         // read as signed, so that a deadline just after the wrap-around is
         // later than one just before it.
         static bool earlier(time_t a, time_t b)
         {
-            if constexpr (std::is_unsigned<time_t>::value)
+            if constexpr (std::is_integral<time_t>::value)
+            {
+                using u = typename std::make_unsigned<time_t>::type;
                 return static_cast<typename std::make_signed<time_t>::type>(
-                           static_cast<time_t>(a - b)) < 0;
+                           static_cast<u>(static_cast<u>(a) -
+                                          static_cast<u>(b))) < 0;
+            }
             else
                 return a < b;
         }
@@ -177,7 +212,8 @@ namespace igris
 
         difftime_t minimal_interval(time_t curtime)
         {
-            return timer_list.first().finish() - curtime;
+            return timer_head_basic<TimeSpec>::sub(
+                timer_list.first().finish(), curtime);
         }
     };
 
